@@ -321,10 +321,10 @@ func TestC15(t *testing.T) {
 			p.WrongKey = true
 		}
 		gp := hist.NewGen(t, fsWeights, hist.Universe, 4, cfg.RecordSize)
-		gp.Avoid = avoidFor("C15")
+		gp.Avoid = f33Avoid(cfg, avoidFor("C15"))
 		gr := hist.NewGen(t, c15Weights, hist.Universe, 4, cfg.RecordSize)
 		gr.Comps = gp.Comps
-		gr.Avoid = c15Avoid
+		gr.Avoid = f33Avoid(cfg, c15Avoid)
 		if guard("F-33") && cfg.Compression == "parallelbzip2" && cfg.Encryption == "pgp" {
 			gp.MaxSize = 90000
 		}
